@@ -23,6 +23,7 @@ PROPERTY = "C14"
 
 # CODE VARIANT FLAGS — which variant of the code the model is compared with.
 # 1 = rich 9.10.0 as found, 0 = repaired = what /repo contains now (fix c34676b = pending_fixes/C14-color-parse-rgb-valueerror.diff).
+TAB_ASSERT = 0  # fixed in 7535af5 (/repo is at 0 now; 1 = rich as found). C14-T1: Text.expand_tabs() asserts `tab_size is not None` (Model/TotalityTitle.lean `tabAssert`); 0 = pending_fixes/C14-expand-tabs-tab-size-none-assertion.diff
 RGB_VALUEERROR = 0  # F9: Color.parse("rgb(1,,2)") lets int()'s ValueError escape (Model/Totality.lean `vErr`)
 
 DOCUMENTED = {"ColorParseError", "StyleSyntaxError", "MarkupError", "MissingStyle"}
@@ -131,6 +132,10 @@ def _walk(desc):
 
 def classify_layout(cls, desc, w, tb):
     """narrow classifiers of the layout findings, by exception class + raising frame + the option shape."""
+    if cls == "AssertionError" and "expand_tabs" in tb and ("rule.py" in tb or "panel.py" in tb):
+        # C14-T1: a Rule / Panel title that is a Text with tab_size=None (documented) holding a tab
+        if any(d[0] in ("rule", "panel") and isinstance(d[1].get("title"), dict) and d[1]["title"].get("tab_size", 8) is None and "\t" in d[1]["title"]["s"] for d in _walk(desc)):
+            return "title-text-tab-size-none-assertion"
     if cls == "ZeroDivisionError" and "columns.py" in tb and any(d[0] == "columns" and d[1]["width"] is not None for d in _walk(desc)):
         return "columns-width-zero-division"
     if cls == "AssertionError" and "ratio_distribute" in tb and "_calculate_column_widths" in tb:
@@ -227,6 +232,11 @@ def _layout_worker(args):
         for k in L.kinds(desc):
             notes["layout:kind:" + k] += 1
         notes["layout:size:%d" % min(L.size(desc) // 5 * 5, 40)] += 1
+        for pos_name, spec in L.text_specs(desc):
+            if pos_name != "leaf" or len(spec) > 1:
+                notes["layout:textopt:" + pos_name] += 1
+                if spec.get("tab_size", 8) is None and "\t" in spec["s"]:
+                    notes["layout:textopt:tab_size=None+tab:" + pos_name] += 1
         # the same tree OBJECT is rendered at several widths one after the other, the first width twice
         w0 = rng.randint(1, 200)
         ws = [w0, rng.randint(1, 12), rng.randint(1, 40), w0]
@@ -253,10 +263,15 @@ def _small_worker(args):
     notes = collections.Counter()
     fails = []
     evals = 0
-    for k, desc in enumerate(L.small_trees()):
+    for k, desc in enumerate(L.small_trees(quick)):
         if k % n != idx:
             continue
         notes["small:kind:" + desc[0]] += 1
+        for pos_name, spec in L.text_specs(desc):
+            if pos_name != "leaf" or len(spec) > 1:
+                notes["small:textopt:" + pos_name] += 1
+                if spec.get("tab_size", 8) is None and "\t" in spec["s"]:
+                    notes["small:textopt:tab_size=None+tab:" + pos_name] += 1
         ths = set(L.option_widths(desc))
         try:
             with L.watchdog(10):
@@ -547,6 +562,60 @@ def run(ctx):
                 ctx.check(cls is None, "Console.print(markup=False)", (s, w, kw), f"print({s!r}, markup=False, **{kw}) at width {w} raised {cls}")
 
     _phase('text_print')
+    # ---- 6b. expand_tabs() on a user Text: Rule / Panel titles, with_indent_guides (deepening 4, C14-T1) -----------
+    from rich.panel import Panel
+    from rich.rule import Rule
+    from rich.text import Text as _Text
+
+    TA = TAB_ASSERT
+    tab_alpha = ["\t", "a", "\n", "あ", " "]
+    tab_strings = list(strings_upto(tab_alpha, 4 if quick else 6)) + ["ab\tcdefgh\ti\n\tj", "\t" * 9, "x\x00\ty", "a\r\tb"]
+    for _ in range(150 if quick else 3000):
+        tab_strings.append("".join(ctx.rng.choice(tab_alpha + ["bc", "\t\t", "\x07"]) for _ in range(ctx.rng.randint(1, 14))))
+    tab_sizes = [None, 1, 2, 3, 4, 8, 11]
+    wide = Console(file=io.StringIO(), width=400, color_system=None, legacy_windows=False)
+
+    def rule_title(s, ts):
+        # the title as the rule shows it (left aligned, not truncated at this width): "<title> ####…"
+        out = "".join(g.text for g in wide.render(Rule(_Text(s, tab_size=ts), characters="#", align="left"), wide.options.update(width=400)))
+        return out.rstrip("\n").rstrip("#")[:-1]
+
+    for i, s in enumerate(tab_strings):
+        for ts in tab_sizes if i < 400 else [ctx.rng.choice(tab_sizes), None]:
+            shape = "tab_size=%s:%s" % ("None" if ts is None else "int", "tab" if "\t" in s else "notab")
+            tse = "-" if ts is None else ts
+            for arg in ([None, 1, 4] if i % 3 == 0 else [None]):
+                def f(arg=arg):
+                    t = _Text(s, tab_size=ts)
+                    t.expand_tabs(arg)
+                    return t.plain
+                cls, v = observe(f)
+                ctx.case("c14_expand_tabs", [TA, enc_str(s), tse, "-" if arg is None else arg], "ok:" + enc_str(v) if cls is None else "err:Other:" + cls,
+                         shape=shape + (":arg" if arg else "") + ":" + (cls or "ok"), sample=f"Text({s!r}, tab_size={ts}).expand_tabs({arg})")
+                # direct evaluation: documented options -> no exception
+                ctx.check(cls is None, "Text.expand_tabs", (s, ts, arg), f"Text({s!r}, tab_size={ts}).expand_tabs({arg}) raised {cls} (tab_size=None is documented)",
+                          finding="title-text-tab-size-none-assertion" if cls == "AssertionError" and ts is None and arg is None and "\t" in s else None)
+            cls, v = observe(lambda: Panel("x", title=_Text(s, tab_size=ts))._title)
+            if cls is None and v is None:
+                ctx.note("title:panel:falsy")
+            else:
+                ctx.case("c14_panel_title", [TA, enc_str(s), tse], "ok:" + enc_str(v.plain) if cls is None else "err:Other:" + cls, shape=shape + ":" + (cls or "ok"),
+                         sample=f"Panel('x', title=Text({s!r}, tab_size={ts}))._title")
+            if s and "#" not in s:
+                cls, v = observe(lambda: rule_title(s, ts))
+                if cls is None and len(v) > 300:
+                    ctx.note("title:rule:too-wide")
+                else:
+                    ctx.case("c14_rule_title", [TA, enc_str(s), tse], "ok:" + enc_str(v) if cls is None else "err:Other:" + cls, shape=shape + ":" + (cls or "ok"),
+                             sample=f"Rule(Text({s!r}, tab_size={ts}))")
+            cls, v = observe(lambda: _Text(s, tab_size=ts).with_indent_guides())
+            ctx.case("c14_guides_prep", [TA, enc_str(s), tse], "ok" if cls is None else "err:Other:" + cls, shape=shape + ":" + (cls or "ok"),
+                     sample=f"Text({s!r}, tab_size={ts}).with_indent_guides()")
+            ctx.check(cls is None, "Text.with_indent_guides", (s, ts), f"Text({s!r}, tab_size={ts}).with_indent_guides() raised {cls}",
+                      finding="title-text-tab-size-none-assertion" if cls == "AssertionError" and ts is None and "\t" in s else None)
+    ctx.flush()
+
+    _phase('title_tabs')
     # ---- 7. trees of built-in renderables x widths -------------------------------------------------------
     n_workers = 12
     per = 250 if quick else 6000
@@ -617,6 +686,23 @@ MANIFEST = {
     "harness; lru_cache on the parsers assumed transparent; lone surrogates excluded.  On rich 9.10.0 as found the check reported F9 "
     "(rgb-component-valueerror), F10 (ansi-sgr-int-valueerror), F11 (columns-width-zero-division) and two new table findings "
     "(table-no-columns-assertion, table-zero-ratio-narrow-assertion); all are repaired in /repo (fixes c34676b, 8dc20cb, f7ecf83, 1d61bac, "
-    "ab98098), RGB_VALUEERROR holds the repaired value 0 and the check exits 0 with no finding: known_findings.txt has no `known:` line for C14, no KNOWN-FINDING line is printed.",
+    "ab98098), RGB_VALUEERROR holds the repaired value 0.  "
+    "DEEPENING 4 (C14-T1, OPEN): the renderable-tree generators now build Text objects with EVERY documented constructor option at every "
+    "documented value (justify / overflow / no_wrap / tab_size incl. None, end '' / '\\n' / ' ' / 'ab', style as '' / str / Style) on "
+    "contents with tabs, line feeds and control characters, as leaf and as Panel / Rule / Table / Columns title, table caption, column "
+    "header / footer, cell and Tree label: bounded-exhaustive (lib_c14.text_option_trees: one option varied at a time + all-None + "
+    "all-extreme, x 20 positions; quick tier: the per-option sweep on 2 of the 9 contents) and in the seeded random trees.  The direct "
+    "evaluation finds by itself that Rule(Text('a\\tb', tab_size=None)), Panel('x', title=Text('a\\tb', tab_size=None)) (render AND measure) "
+    "and Text('\\t', tab_size=None).with_indent_guides() / .expand_tabs() raise an undocumented AssertionError (text.py:643 `assert "
+    "tab_size is not None`; tab_size=None is documented).  Model/TotalityTitle.lean models the three callers of expand_tabs() without "
+    "argument (rule.py:76-79, Panel._title, with_indent_guides' copy+expand) over C05's Text model behind the flag tabAssert; "
+    "title_expand_tabs_total proves totality + consistency for the repaired variant (every consistent Text, every documented tab_size "
+    "incl. None, unbounded), expand_tabs_repair_conservative that the repair changes nothing when a tab size is in force, and three "
+    "`old_…` decide-witnesses show the code as found raising.  Correspondence: c14_expand_tabs / c14_panel_title / c14_rule_title / "
+    "c14_guides_prep on every string <= 4 (thorough 6) over {tab, a, LF, wide, blank} x tab_size {None,1,2,3,4,8,11} x argument "
+    "{None,1,4} + seeded random.  The defect was repaired in /repo 7535af5 (pending_fixes/C14-expand-tabs-tab-size-none-assertion.diff: fall back to 8, as the "
+    "method's docstring says); TAB_ASSERT = 0 matches /repo now, the slug `title-text-tab-size-none-assertion` only labels a failure should it return.  The `R` tree model (Model/Layout.lean, C01/C09) still assumes tab-free titles: layout_total does not "
+    "cover a title with a tab; the tie for those is title_expand_tabs_total + the direct evaluation.  Text.__rich_measure__ is modelled "
+    "as /repo has it since fix 542a59e (split('\\n'); textRichMeasureNL, text_measure_total_nl); textRichMeasureE is the code before it.",
     "design_ref": "DESIGN.md section 7, C14",
 }
